@@ -155,6 +155,24 @@ TIME_VALUES = [(14, 34, 28), (0, 5, 9)]
 LIST_VALUES = [["A", "B", "C"], ["A", "B"], ["x"]]
 
 
+def macro_family(oid, vi, lv, sval, vval, name, fargs):
+    """The t*_format! family on one value: locale-taking string / display / view, and context-taking tracked and untracked."""
+    F = "leptos_i18n::formatting::"
+    return [
+        '    emit(%d, "m%d", &%std_format_string!(%s, %s, formatter: %s%s));' % (oid, vi, F, lv, sval, name, fargs),
+        '    emit(%d, "md%d", &%std_format_display!(%s, %s, formatter: %s%s).to_string());' % (oid, vi, F, lv, sval, name, fargs),
+        '    emit(%d, "mv%d", &html(%std_format!(%s, move || %s, formatter: %s%s)));' % (oid, vi, F, lv, vval, name, fargs),
+        '    with_ctx(%s, |i18n| { emit(%d, "mc%d", &%st_format_string!(i18n, %s, formatter: %s%s)); '
+        'emit(%d, "mu%d", &%stu_format_display!(i18n, %s, formatter: %s%s).to_string()); '
+        'emit(%d, "mw%d", &html(%st_format!(i18n, move || %s, formatter: %s%s))); });' % (
+            lv, oid, vi, F, sval, name, fargs, oid, vi, F, sval, name, fargs, oid, vi, F, vval, name, fargs),
+    ]
+
+
+FLAVOUR_NAMES = {"s": "td_string", "v": "td", "m": "td_format_string", "md": "td_format_display", "mv": "td_format", "mc": "t_format_string",
+                 "mu": "tu_format_display", "mw": "t_format"}
+
+
 def e2e_stage(res, tier, seed):
     rng = rng_for(seed, "C18", "E")
     cfgs = configs()
@@ -189,31 +207,35 @@ def e2e_stage(res, tier, seed):
                     lines.append('    emit(%d, "exp%d", &%s); emit(%d, "s%d", &td_string!(%s, %s, v = %s).to_string()); emit(%d, "v%d", &html(td!(%s, %s, v = move || %s)));' % (
                         oid, vi, exp, oid, vi, lv, key, lit, oid, vi, lv, key, lit))
                     if macro_ok:
-                        lines.append('    emit(%d, "m%d", &leptos_i18n::formatting::td_format_string!(%s, %s, formatter: %s%s));' % (oid, vi, lv, lit, name, fargs))
+                        lines += macro_family(oid, vi, lv, lit, lit, name, fargs)
             elif name == "date":
                 for vi, (y, m, d) in enumerate(DATE_VALUES):
                     val = "Date::try_new_iso_date(%d, %d, %d).unwrap().to_any()" % (y, m, d)
                     lines.append('    emit(%d, "exp%d", &exp_date(%s, %d, %d, %d, length::Date::%s)); emit(%d, "s%d", &td_string!(%s, %s, v = %s).to_string()); emit(%d, "v%d", &html(td!(%s, %s, v = move || %s)));' % (
                         oid, vi, ls, y, m, d, canon[1], oid, vi, lv, key, val, oid, vi, lv, key, val))
                     if macro_ok:
-                        lines.append('    emit(%d, "m%d", &leptos_i18n::formatting::td_format_string!(%s, &%s, formatter: %s%s));' % (oid, vi, lv, val, name, fargs))
+                        lines += macro_family(oid, vi, lv, "&" + val, val, name, fargs)
             elif name == "time":
                 for vi, (h, mi, s) in enumerate(TIME_VALUES):
                     val = "Time::try_new(%d, %d, %d, 0).unwrap()" % (h, mi, s)
                     lines.append('    emit(%d, "exp%d", &exp_time(%s, %d, %d, %d, length::Time::%s)); emit(%d, "s%d", &td_string!(%s, %s, v = %s).to_string()); emit(%d, "v%d", &html(td!(%s, %s, v = move || %s)));' % (
                         oid, vi, ls, h, mi, s, canon[1], oid, vi, lv, key, val, oid, vi, lv, key, val))
+                    if macro_ok:
+                        lines += macro_family(oid, vi, lv, "&" + val, val, name, fargs)
             elif name == "datetime":
                 for vi, ((y, m, d), (h, mi, s)) in enumerate(zip(DATE_VALUES, TIME_VALUES)):
                     val = "DateTime::new(Date::try_new_iso_date(%d, %d, %d).unwrap().to_any(), Time::try_new(%d, %d, %d, 0).unwrap())" % (y, m, d, h, mi, s)
                     lines.append('    emit(%d, "exp%d", &exp_datetime(%s, %d, %d, %d, %d, %d, %d, length::Date::%s, length::Time::%s)); emit(%d, "s%d", &td_string!(%s, %s, v = %s).to_string()); emit(%d, "v%d", &html(td!(%s, %s, v = move || %s)));' % (
                         oid, vi, ls, y, m, d, h, mi, s, canon[1], canon[2], oid, vi, lv, key, val, oid, vi, lv, key, val))
+                    if macro_ok:
+                        lines += macro_family(oid, vi, lv, "&" + val, val, name, fargs)
             else:
                 for vi, items in enumerate(LIST_VALUES):
                     arr = "[%s]" % ", ".join(e2e.rust_str(x) for x in items)
                     lines.append('    emit(%d, "exp%d", &exp_list(%s, &%s, %s, ListLength::%s)); emit(%d, "s%d", &td_string!(%s, %s, v = %s).to_string()); emit(%d, "v%d", &html(td!(%s, %s, v = move || %s)));' % (
                         oid, vi, ls, arr, e2e.rust_str(canon[1]), canon[2], oid, vi, lv, key, arr, oid, vi, lv, key, arr))
                     if macro_ok:
-                        lines.append('    emit(%d, "m%d", &leptos_i18n::formatting::td_format_string!(%s, %s, formatter: %s%s));' % (oid, vi, lv, arr, name, fargs))
+                        lines += macro_family(oid, vi, lv, arr, arr, name, fargs)
             c.add("\n".join(lines), {"name": name, "args": args, "canon": canon, "locale": loc})
     root = e2e.write_workspace("c18", [c], seed=seed)
     status, secs, _ = e2e.build_workspace(root, [c])
@@ -245,13 +267,13 @@ def e2e_stage(res, tier, seed):
         while "exp%d" % vi in got:
             want = got["exp%d" % vi]["v"]
             texts.setdefault((exp["name"], exp["locale"], vi), {}).setdefault(exp["canon"], want)
-            for fl in ("s", "v", "m"):
+            for fl in ("s", "v", "m", "md", "mv", "mc", "mu", "mw"):
                 o = got.get("%s%d" % (fl, vi))
                 if o is None:
                     continue
                 res.ev()
-                text = e2e.normalise_html(o["v"]) if fl == "v" else o["v"]
-                res.count("e2e:%s:%s" % (exp["name"], {"s": "td_string", "v": "td", "m": "td_format_string"}[fl]))
+                text = e2e.normalise_html(o["v"]) if fl in ("v", "mv", "mw") else o["v"]
+                res.count("e2e:%s:%s" % (exp["name"], FLAVOUR_NAMES[fl]))
                 if exp["args"]:
                     res.nontriv([exp["canon"], exp["locale"], vi])
                 if text != want:
